@@ -1,6 +1,7 @@
 // j5sc compiles a directory tree of .j5s/.proto files (a bundle root) and prints
 // the generated proto for one package: a playground for reading the compiler.
-//   go run ./cmd/j5sc <dir> <package>
+//
+//	go run ./cmd/j5sc <dir> <package>
 package main
 
 import (
